@@ -152,6 +152,8 @@ def gen_data(rnd, style):
         d["tiers"][1]["name"] = d["tiers"][0]["name"]          # duplicate names
         if len(d["tiers"]) > 2 and rnd.random() < 0.5:
             d["tiers"][2]["name"] = d["tiers"][0]["name"]
+    if rnd.random() < 0.2:
+        d = ioops.negate_tg(d, rnd)             # negative times: all below 0, or on both sides of it (A30, fixed)
     return d
 
 
@@ -172,6 +174,15 @@ def corpus():
                                         {"k": "P", "name": 'class= "IntervalTier"', "es": [[1.0, 'class="IntervalTier"']], "lo": 0.0, "hi": 2.0}]}
     for nl in ("\n", "\r\n"):
         yield {"op": "open", "data": d3, "layout": "tight", "style": "plain", "enc": "utf-8", "newline": nl, "iei": True, "dup": "error", "negzero": False}
+    # A30 (fixed): negative times (Praat writes them for a time domain that starts before 0) in every layout
+    d4 = {"lo": -3.0, "hi": 2.0, "tiers": [{"k": "I", "name": "a", "es": [[-2.5, -1.0, "x"], [-1.0, 0.0, ""], [0.5, 1.0, "y"]], "lo": -3.0, "hi": 2.0},
+                                         {"k": "P", "name": "p", "es": [[-2.0, "m"], [-1e-05, "tiny"], [1.5, "n"]], "lo": -3.0, "hi": 2.0}]}
+    for layout in LAYOUTS:
+        for style in ("plain", "exp", "float"):
+            yield {"op": "open", "data": d4, "layout": layout, "style": style, "enc": "utf-8", "newline": "\n", "iei": True, "dup": "error", "negzero": style == "plain"}
+    for t in ["xmin = -1.5 ", "xmax = -1.5", "number= -0\n", "xmax = - 1", "xmin = --1", "xmax = -.5e-3 \n", "xmax = -e5", "xmin = +1", "xmax = -\n1"]:
+        for kw in ("xmin", "xmax", "number"):
+            yield {"op": "u_num", "s": t, "kw": kw, "neg": True, "ascii": True}
     for t in ['class= "IntervalTier"', 'class ="IntervalTier"', 'class="IntervalTier"', 'class = "IntervalTier"', 'class  = "IntervalTier"',
               'xclass = "IntervalTier"', 'mark = "class = ""IntervalTier"""', 'class =\n"IntervalTier"', 'class = "IntervalTier', 'class == "IntervalTier"']:
         yield {"op": "u_class", "s": t}
